@@ -115,6 +115,13 @@ pub async fn backup(
 
     // Create the new band only after finding the basis band!
     let band = Band::create(archive).await?;
+    // Look for the gc lock again now that the band exists. A gc that took its lock after the
+    // check at the top but before the band was created has no way to notice this backup (no new
+    // band existed when it looked), and would delete unreferenced blocks that this backup is
+    // about to deduplicate against. A gc that starts from here on will see the new band.
+    if gc_lock::GarbageCollectionLock::is_locked_in_listing(archive).await? {
+        return Err(Error::GarbageCollectionLockHeld);
+    }
     let index_writer = band.index_writer(monitor.clone());
     let block_dir = archive.block_dir().await?;
     let mut writer = BackupWriter {
